@@ -112,7 +112,8 @@ class C17(object):
                          'reparse.second_block_without_run_parameter_lines',
                          'reparse.second_block_is_scenario_with_same_names_and_horizon',
                          'reparse.warning_raised_as_error',
-                         'reparse.fallback_after_failed_search')
+                         'reparse.fallback_after_failed_search',
+                         'reparse.second_block_is_empty')
 
     def n_cases(self, tier):
         return 32 if tier == 'quick' else 1200
@@ -159,6 +160,11 @@ class C17(object):
                 # the steady-state search fails (a drifting variable); the caller switches the option off and solves again
                 b_text = 'zz_drift = zz_drift_l + 1.0\nzz_drift_l = zz_drift(k-1)\n' + b_text
                 mode = 'fallback_after_failed_search'
+            if idx % 32 == 19:
+                # the second block is EMPTY (or a lone comment): only the time axis is left to report
+                return {'kind': 'reparse', 'A': G.render(a), 'B': ['', '# nothing left\n', '\n\n'][(idx // 32) % 3], 'B_omits_run_parameters': False,
+                        'B_is_scenario_of_A': False, 'mode': None, 'B_is_empty': True, 'B_names': ['k', 't'],
+                        'reduction': rng.random() < 0.5, 'solve_A': True}
             return {'kind': 'reparse', 'A': G.render(a), 'B': b_text, 'B_omits_run_parameters': omits, 'B_is_scenario_of_A': same_names,
                     'mode': mode,
                     'B_names': sorted(set(G.all_value_names(b) + [d['name'] for d in b['decos']] + ['k', 't'])),
@@ -431,6 +437,8 @@ class C17(object):
             rec.count('reparse.second_block_without_run_parameter_lines')
         if case.get('B_is_scenario_of_A'):
             rec.count('reparse.second_block_is_scenario_with_same_names_and_horizon')
+        if case.get('B_is_empty'):
+            rec.count('reparse.second_block_is_empty')
         keys = sorted(s.TimeSeries.keys())
         if keys != case['B_names']:
             rec.violate('remnants_of_previous_block', {'extra': sorted(set(keys) - set(case['B_names'])),
